@@ -661,17 +661,6 @@ def direct_oracles(case, res, hist, code_nmix, plan=None):
         # it declares (read from its moles_added table); the balance net of them has been judged at 1e-9 above
         hist["mcd_guard_explained_stretches"] += len(GUARD_HITS)
         out.append(("finding:mcd-negative-concentration-guard-adds-mass", list(GUARD_HITS[:3])))
-    # precise attribution of the defect "exchange species of an interlayer-off pair diffuse as pore-water solutes":
-    # -interlayer_d on, at least one adjacent pair of mobile cells that both lack a user-defined exchanger (they hold
-    # only the automatic 2e-10 mol X, so find_J switches the interlayer calculation off for that pair), and the engine's
-    # own negative-concentration guard reported that it added moles
-    if case.get("interlayer") and case.get("exch") is not None:
-        ex = case["exch"]
-        off_pair = any(str(i) not in ex and str(i + 1) not in ex for i in range(1, n))
-        if off_pair and "Negative concentration in MCD" in res.get("warn", ""):
-            out = [(("finding:interlayer-off-pair-diffuses-exchange-species", d)
-                    if k in ("oracle-inventory", "oracle-flux-balance", "finding:mcd-negative-concentration-guard-adds-mass") else (k, d))
-                   for k, d in out]
     return out
 
 
@@ -1211,6 +1200,14 @@ def run(ctx):
     cplans = model_plans(ctx, cplain)
     problems += check_cases(ctx, exe, [(c, cplans.get(i)) for i, c in enumerate(cplain)], hist)
     problems += check_variants(ctx, exe, [c for c in corpus if is_variant(c)], hist)
+    # a corpus case may reproduce only the known finding it was recorded for; every other corpus case is a regression
+    # input of a repaired defect and must pass strictly (a finding route there is a violation)
+    strict = []
+    for c, probs, res in problems:
+        probs = [(("oracle-corpus-regression (%s)" % k.split(":", 1)[1], d)
+                  if k.startswith("finding:") and k.split(":", 1)[1] != c.get("expect") else (k, d)) for k, d in probs]
+        strict.append((c, probs, res))
+    problems = strict
     hist["corpus_cases"] = len(corpus)
     while done < nplain and not any(has_oracle_failure(p) for p in problems):
         cases = gen_cases(ctx, min(chunk, nplain - done), budget)
